@@ -180,6 +180,28 @@ def sg_enum(prog: Program) -> RuleResult:
         "a class reachable through two bases (diamond D(B, C)) is listed twice - no de-duplicating construct lies between "
         "__subclasses__() and the enumeration loop - so each of its instances is returned twice by a domain-less variable",
     )
+    # what is handed out is the referent of a weak reference: it may be gone by the time its turn comes (the enumeration is lazy)
+    emitted = []
+    for x in walk_local(f.node):
+        if isinstance(x, (ast.Yield,)) and x.value is not None:
+            emitted.append((x.value, None))
+        if isinstance(x, (ast.GeneratorExp, ast.ListComp)) and any("_class_to_wrapped_instances" in src(g.iter) for g in x.generators):
+            emitted.append((x.elt, x))
+    dead_ok = bool(emitted)
+    for val, comp in emitted:
+        names = {val.id} if isinstance(val, ast.Name) else set()
+        texts = {src(val)}
+        if isinstance(val, ast.Name):
+            texts |= {src(a.value) for a in walk_local(f.node) if isinstance(a, ast.Assign) and len(a.targets) == 1 and isinstance(a.targets[0], ast.Name) and a.targets[0].id == val.id}
+        conds = [i for g in comp.generators for i in g.ifs] if comp is not None else [t.test for t in walk_local(f.node) if isinstance(t, ast.If) and any(y is val for b in t.body for y in ast.walk(b))]
+        ok = False
+        for cnd in conds:
+            for cmp_ in [y for y in ast.walk(cnd) if isinstance(y, ast.Compare) and len(y.ops) == 1 and isinstance(y.ops[0], ast.IsNot) and isinstance(y.comparators[0], ast.Constant) and y.comparators[0].value is None]:
+                if src(cmp_.left) in texts or (isinstance(cmp_.left, ast.Name) and cmp_.left.id in names):
+                    ok = True
+        dead_ok = dead_ok and ok
+    r.check(dead_ok, "SymbolGraph.get_instances_of_type#dead-skipped", site(f), "; ".join(src(v)[:40] for v, _ in emitted), "a wrapper whose instance is gone is skipped",
+            "the referent of a wrapper is handed out without a test for None: an instance that dies while a domain-less variable is being enumerated shows up as None in its range")
     return r
 
 
